@@ -1,0 +1,37 @@
+//go:build verif
+
+package measurements
+
+// Contracts for the verification machinery in /verif (comment-only; not compiled without the tag "verif").
+
+//@ func midpoint
+//@   requires -4611686018427387904 < x.Offset && x.Offset < 4611686018427387904
+//@   requires -4611686018427387904 < y.Offset && y.Offset < 4611686018427387904
+//@   requires -4611686018427387904 < x.Timestamp.Unix() && x.Timestamp.Unix() < 4611686018427387904
+//@   requires -4611686018427387904 < y.Timestamp.Unix() && y.Timestamp.Unix() < 4611686018427387904
+//@   ensures offset: (x.Offset <= y.Offset ==> x.Offset <= result.Offset && result.Offset <= y.Offset) && (y.Offset <= x.Offset ==> y.Offset <= result.Offset && result.Offset <= x.Offset)
+//@   ensures exact: mathint(result.Offset) == mathint(x.Offset)+(mathint(y.Offset)-mathint(x.Offset))/2
+//@   ensures stamp: (!x.Timestamp.After(y.Timestamp) ==> !result.Timestamp.Before(x.Timestamp) && !result.Timestamp.After(y.Timestamp)) && (x.Timestamp.After(y.Timestamp) ==> !result.Timestamp.Before(y.Timestamp) && !result.Timestamp.After(x.Timestamp))
+//@   ensures noerror: result.Error == nil
+
+//@ func Median
+//@   panics when len(ms) == 0
+//@   requires forall(i, 0, len(ms), -4611686018427387904 < ms[i].Offset && ms[i].Offset < 4611686018427387904 && -4611686018427387904 < ms[i].Timestamp.Unix() && ms[i].Timestamp.Unix() < 4611686018427387904)
+//@   modifies ms[:]
+//@   ensures sorted: forall(i, 0, len(ms), forall(j, i, len(ms), ms[i].Offset <= ms[j].Offset))
+//@   ensures perm: permutation(ms, old(ms))
+//@   ensures within: ms[0].Offset <= result.Offset && result.Offset <= ms[len(ms)-1].Offset
+//@   ensures odd: len(ms)%2 != 0 ==> result.Offset == ms[len(ms)/2].Offset && result.Timestamp == ms[len(ms)/2].Timestamp
+//@   ensures even: len(ms)%2 == 0 ==> ms[len(ms)/2-1].Offset <= result.Offset && result.Offset <= ms[len(ms)/2].Offset && mathint(result.Offset) == mathint(ms[len(ms)/2-1].Offset)+(mathint(ms[len(ms)/2].Offset)-mathint(ms[len(ms)/2-1].Offset))/2
+//@   ensures noerror: result.Error == nil
+
+//@ func FaultTolerantMidpoint
+//@   panics when len(ms) == 0
+//@   requires forall(i, 0, len(ms), -4611686018427387904 < ms[i].Offset && ms[i].Offset < 4611686018427387904 && -4611686018427387904 < ms[i].Timestamp.Unix() && ms[i].Timestamp.Unix() < 4611686018427387904)
+//@   modifies ms[:]
+//@   ensures sorted: forall(i, 0, len(ms), forall(j, i, len(ms), ms[i].Offset <= ms[j].Offset))
+//@   ensures perm: permutation(ms, old(ms))
+//@   ensures trimmed: ms[(len(ms)-1)/3].Offset <= result.Offset && result.Offset <= ms[len(ms)-1-(len(ms)-1)/3].Offset
+//@   ensures mid: mathint(result.Offset) == mathint(ms[(len(ms)-1)/3].Offset)+(mathint(ms[len(ms)-1-(len(ms)-1)/3].Offset)-mathint(ms[(len(ms)-1)/3].Offset))/2
+//@   ensures stamp: !result.Timestamp.Before(ms[(len(ms)-1)/3].Timestamp) && !result.Timestamp.After(ms[len(ms)-1-(len(ms)-1)/3].Timestamp) || !result.Timestamp.Before(ms[len(ms)-1-(len(ms)-1)/3].Timestamp) && !result.Timestamp.After(ms[(len(ms)-1)/3].Timestamp)
+//@   ensures noerror: result.Error == nil
